@@ -1,6 +1,7 @@
 package ssasym
 
 import (
+	"fmt"
 	"go/types"
 	"math/big"
 
@@ -61,6 +62,7 @@ func init() {
 	miscStubs()
 	hashStubs()
 	containerStubs()
+	bigStubs()
 }
 
 func (in *Interp) constStr(v Value, what string) string {
@@ -500,6 +502,13 @@ func (in *Interp) errorsIs(fr *frame, err, target IfaceV, depth int) bool {
 	}
 	if err.T == nil || target.T == nil {
 		return err.T == nil && target.T == nil
+	}
+	for _, x := range []IfaceV{err, target} {
+		if pv, ok := x.V.(PtrV); ok && pv.P != nil {
+			if nv, ok := (*pv.P).(*NativeV); ok && nv.Kind == "opaque-error" {
+				panic(&abort{abNotEncodable, "errors.Is on an error produced by an engine model (" + fmt.Sprint(nv.Data) + "): its identity is outside the model"})
+			}
+		}
 	}
 	cmp := types.Comparable(target.T)
 	for {
